@@ -95,14 +95,29 @@ func c14Polys(thorough bool) []c14P {
 	return out
 }
 
+// hooks installed by zz_verif_c14_x4_test.go (nil when that file does not build against the tree under test)
+var (
+	c14X4Available func() bool
+	c14DeriveX4    func(ps [4]*Poly, seed *[32]byte, xs, ys [4]uint8)
+)
+
 func TestVerifC14_kyber_poly(t *testing.T) {
 	c := verifc14.Start(t, "kyber_poly")
 	c.Backend("pke/kyber/internal/common: cpu.X86.HasAVX2", c14Backend(), verifc14.Avx2Sel)
-	x4 := "scalar-path"
-	if DeriveX4Available {
-		x4 = "x4-path"
+	// the four-way sampler and its switch are reached through hooks installed by zz_verif_c14_x4_test.go, the only
+	// C14 file of this directory that names DeriveX4Available / PolyDeriveUniformX4: if they are renamed, that file
+	// is left out, the switch is recorded as not observed and the in-process X4 comparison is skipped.
+	x4Available := c14X4Available != nil && c14X4Available()
+	var readX4 func() string
+	if c14X4Available != nil {
+		readX4 = func() string {
+			if c14X4Available() {
+				return "x4-path"
+			}
+			return "scalar-path"
+		}
 	}
-	c.Backend("pke/kyber/internal/common.DeriveX4Available", x4, func(f verifc14.Features) string {
+	c.BackendOptional("pke/kyber/internal/common.DeriveX4Available", readX4, func(f verifc14.Features) string {
 		if f.AVX2 { // keccakf1600.IsEnabledX4() is cpu.X86.HasAVX2 in every build, also purego
 			return "x4-path"
 		}
@@ -325,7 +340,7 @@ func TestVerifC14_kyber_poly(t *testing.T) {
 					r.Violation("C14|kyber.DeriveUniform|differs-from-independent-Parse|"+c14Backend(), fmt.Sprintf("DeriveUniform-boundary#%s/x=%d/y=%d", b.class, b.x, b.y),
 						fmt.Sprintf("DeriveUniform(boundary seed, %d, %d) [%s] differs from Parse(SHAKE128) computed with x/crypto", b.x, b.y, b.class), nil)
 				}
-				if DeriveX4Available && len(ordinary) == 3 {
+				if x4Available && len(ordinary) == 3 {
 					for lane := 0; lane < 4; lane++ { // the boundary stream in each lane, ordinary streams in the others
 						var ps [4]Poly
 						var xs, ys [4]uint8
@@ -338,7 +353,7 @@ func TestVerifC14_kyber_poly(t *testing.T) {
 								o++
 							}
 						}
-						PolyDeriveUniformX4([4]*Poly{&ps[0], &ps[1], &ps[2], &ps[3]}, &bseed, xs, ys)
+						c14DeriveX4([4]*Poly{&ps[0], &ps[1], &ps[2], &ps[3]}, &bseed, xs, ys)
 						for k := 0; k < 4; k++ {
 							var q Poly
 							q.DeriveUniform(&bseed, xs[k], ys[k])
@@ -356,7 +371,7 @@ func TestVerifC14_kyber_poly(t *testing.T) {
 						bb := bounds[(j.i+k)%len(bounds)]
 						xs[k], ys[k] = bb.x, bb.y
 					}
-					PolyDeriveUniformX4([4]*Poly{&ps[0], &ps[1], &ps[2], &ps[3]}, &bseed, xs, ys)
+					c14DeriveX4([4]*Poly{&ps[0], &ps[1], &ps[2], &ps[3]}, &bseed, xs, ys)
 					for k := 0; k < 4; k++ {
 						var q Poly
 						q.DeriveUniform(&bseed, xs[k], ys[k])
@@ -390,11 +405,11 @@ func TestVerifC14_kyber_poly(t *testing.T) {
 						d.Exec(1)
 					}
 				}
-				if DeriveX4Available {
+				if x4Available {
 					// compared inside the process with DeriveUniform (the X4 routine does not exist as a separate public path
 					// when AVX2 is off, so its output cannot be part of the cross-configuration digest)
 					var ps [4]Poly
-					PolyDeriveUniformX4([4]*Poly{&ps[0], &ps[1], &ps[2], &ps[3]}, &s32, [4]uint8{0, 1, 2, 255}, [4]uint8{3, 2, 255, 0})
+					c14DeriveX4([4]*Poly{&ps[0], &ps[1], &ps[2], &ps[3]}, &s32, [4]uint8{0, 1, 2, 255}, [4]uint8{3, 2, 255, 0})
 					for k, xy := range [][2]uint8{{0, 3}, {1, 2}, {2, 255}, {255, 0}} {
 						var p Poly
 						p.DeriveUniform(&s32, xy[0], xy[1])
@@ -408,7 +423,7 @@ func TestVerifC14_kyber_poly(t *testing.T) {
 			})
 		}
 	})
-	if DeriveX4Available {
+	if x4Available {
 		r.RequireCounter("x4_lanes_compared", 4)
 	}
 	for _, cls := range []string{"four-blocks", "cand=q", "cand=q-1", "valid-second-candidate-dropped"} {
